@@ -18,7 +18,7 @@ Inductive tstate :=
 | TDoneBg (ok : bool).
 
 (* thread labels: F i = the i-th RoundTrip call of the phase, B j = the j-th background thread spawned *)
-Inductive label := F (i : nat) | B (j : nat).
+Inductive label := F (i : nat) | B (j : nat) | Tick.   (* Tick: one second of virtual time passes *)
 
 Record cworld := {
   cw_w : world;                    (* store, clock, origin script, call counter; w_log: all events, reversed *)
@@ -108,6 +108,10 @@ Definition cstep (T : Z) (l : label) (cw : cworld) : option cworld :=
                   cw_trace := map (fun ev => (l, ev)) (head_event w w1) ++ cw_trace cw |}
       | _ => None
       end
+  | Tick =>
+      Some {| cw_w := {| w_store := w_store w; w_clock := w_clock w + second; w_script := w_script w;
+                         w_calls := w_calls w; w_log := w_log w; w_pending := w_pending w |};
+              cw_fg := cw_fg cw; cw_bg := cw_bg cw; cw_trace := cw_trace cw |}
   | B j =>
       match nth_error (cw_bg cw) j with
       | Some (TBg p) =>
